@@ -96,7 +96,8 @@ ParseInputs == {a \o b \o c : a \in ParseItems, b \in ParseItems \cup {<< >>}, c
 
 ---------------------------------------------------------------------------
 \* one step: the new heap, the event describing it, and the operation description for export
-Do(newheap, e, desc, usedInsts) ==
+Do(newheapX, e, desc, usedInsts) ==
+  \E newheap \in {newheapX} :      \* bound once: TLC re-evaluates action-level parameters on every reference
   /\ heap' = newheap
   /\ ev' = [e EXCEPT !.upd = LET ch == {r \in Regs : newheap[r] # heap[r]}
                               IN SetToSeq({<<r, newheap[r]>> : r \in ch})]
